@@ -140,7 +140,15 @@ wrap_masked(None)
 
 @method('Arr', 'tolist')
 def _tolist(L, a):
-    raise Unsupported('tolist of symbolic array')
+    """a 1-d array of symbolic length as a python list of symbolic length; a structured array gives one tuple per record, fields
+    in dtype order (the order of the field dictionary)"""
+    from .core import SymList
+    if a.ndim == 1 and a.fields is not None:
+        cols = list(a.fields.values())
+        return SymList(a.shape[0], lambda i: tuple(col.f((to_z3(i),)) for col in cols), 'records')
+    if a.ndim == 1 and not isinstance(simp(a.shape[0]), int):
+        return SymList(a.shape[0], lambda i: a.f((to_z3(i),)), 'elements')
+    raise Unsupported('tolist of this array')
 
 
 @model('numpy.argmax')
